@@ -223,12 +223,18 @@ def check_sign(res, facts):
             return PS.UNKNOWN
         return oracle
     # encoders: from_y_coordinate / from_x_coordinate / to_flags: coordinate <= its negation  => positive
-    for head, fname, pos, neg in ((SWFLAGS, "from_y_coordinate", "YIsPositive", "YIsNegative"), (TEFLAGS, "from_x_coordinate", "XIsPositive", "XIsNegative")):
-        fns = [f for f in facts.fns(unit="ws", crate="ark_ec") if f.name == fname and f.self_head == head]
-        key = "ark_ec|%s::%s" % (head.rsplit("::", 1)[-1], fname)
+    SWAFF_, TEAFF_ = "ark_ec::models::short_weierstrass::affine::Affine", "ark_ec::models::twisted_edwards::affine::Affine"
+    for head, fname, pos, neg in ((SWFLAGS, "from_y_coordinate", "YIsPositive", "YIsNegative"), (TEFLAGS, "from_x_coordinate", "XIsPositive", "XIsNegative"),
+                                  (SWAFF_, "to_flags", "YIsPositive", "YIsNegative"), (TEAFF_, "to_flags", "XIsPositive", "XIsNegative")):
+        fns = [f for f in facts.fns(unit="ws", crate="ark_ec") if f.name == fname and f.self_head == head and f.kind != "Closure"]
+        key = "ark_ec|%s::%s" % (head.rsplit("::", 1)[-1] if fname != "to_flags" else ("SW" if head == SWAFF_ else "TE") + "::Affine", fname)
+        if not fns and fname == "to_flags":
+            continue            # optional second encoder (the flags constructors above are the anchored ones)
         if not fns:
             rule.bad(key, "anchor missing")
             continue
+        if fname == "to_flags" and not any(t["f"].get("trait") == "core::cmp::PartialOrd" for _, t in fns[0].calls()):
+            continue            # delegates to the flags constructor (decided above)
         fn = fns[0]
         # operands in order (c, -c)?
         dep = DF.Dep(fn)
@@ -252,7 +258,7 @@ def check_sign(res, facts):
                         if s.get("d") == 0 and s.get("r", {}).get("k") == "agg":
                             v = s["r"].get("variant")
                 vals.add(v)
-            table[world] = vals
+            table[world] = vals - ({"PointAtInfinity"} if fname == "to_flags" else set())
         want = {LT: {pos}, EQ: {pos}, GT: {neg}}
         if oriented and table == want:
             rule.ok(key, "c <= -c  => %s, else %s" % (pos, neg), fn.loc)
